@@ -4,6 +4,7 @@
 From Coq Require Import NArith ZArith List Bool.
 From Mpc Require Import Gen.Consts Base.Label OT.Iknp OT.IknpProof OT.Cot OT.CotProof OT.Co OT.CoProof OT.Rsa OT.RsaProof.
 Import ListNotations.
+From Mpc Require Gen.State Base.StateExpected Base.StateCheck Base.StatePkgs.
 Local Open Scope nat_scope.
 
 (* IKNP, label form.  For every pair of column PRG stream families g0 g1
@@ -150,3 +151,16 @@ Theorem C06_rsa_spec :
     = Some (v, m0p, m1p, if flag then l1 else l0).
 Proof. exact rsa_correct_exec. Qed.
 Print Assumptions C06_rsa_spec.
+
+(* STATE INVENTORY (finite obligation on the model regenerated from the source, checked by
+   computation).  The struct fields and package-level variables of the Go packages this
+   property is anchored in — ot — as emitted from /repo's current
+   source by harness/gen_state.go (Gen/State.v) are exactly those the models above were written
+   against (Base/StateExpected.v).  A new field or variable (a cache, a memo, a pool, a counter,
+   a changed field type) is state the models do not have: this obligation then breaks and the
+   property is no longer shown to hold until the change has been reviewed against the model. *)
+Theorem C06_state_inventory :
+  Mpc.Base.StateCheck.state_unchanged Mpc.Gen.State.state_inventory Mpc.Base.StateExpected.expected_state
+    Mpc.Base.StatePkgs.pkgs_C06 = true.
+Proof. vm_compute. reflexivity. Qed.
+Print Assumptions C06_state_inventory.
